@@ -69,6 +69,25 @@ Theorem C03_suite_false_if_domain_false : forall incl excl out src ref,
 Proof. intros. apply domain_fail_empty. Qed.
 Print Assumptions C03_suite_false_if_domain_false.
 
+(* a field present on both sides and selected by the filters whose comparison answers 'failed' OR ends in an error (the
+   predicate raised) makes the whole suite false — whatever the domain verdict and the other fields are *)
+Theorem C03_suite_false_if_a_field_failed_or_errored : forall d incl excl out src ref f,
+  NoDup (names src) -> NoDup (names ref) ->
+  In f src -> In (fname f) (names ref) -> selected incl excl f = true ->
+  (out (fname f) = OFail \/ out (fname f) = ORaise) ->
+  suite_bool (compare d incl excl out src ref) = false.
+Proof.
+  intros d incl excl out src ref f NS NR Hf Hr Hsel Hout.
+  destruct d; [|apply domain_fail_empty].
+  destruct (suite_bool (compare true incl excl out src ref)) eqn:E; [|reflexivity]. exfalso.
+  apply verdict_iff in E. destruct E as [_ E].
+  assert (Hin : In (fname f, status_of (out (fname f))) (entries (compare true incl excl out src ref))).
+  { apply (status_correct incl excl out src ref NS NR). left. exists f. repeat split; assumption. }
+  destruct (E _ Hin) as [E1 E2]. cbn [snd] in E1, E2.
+  destruct Hout as [H|H]; rewrite H in E1, E2; cbn in E1, E2; congruence.
+Qed.
+Print Assumptions C03_suite_false_if_a_field_failed_or_errored.
+
 Example C03_nonvacuous :
   let A := {| pts := [[0#1;0#1]; [1#1;0#1]; [1#1;1#1]; [0#1;1#1]]; cells := [(9, [[0;1;2;3]])] |} in
   let B := {| pts := [[0#1;0#1]; [1#1;0#1]; [1#1;1#1]; [0#1;1#1]]; cells := [(8, [[0;1;3;2]])] |} in
